@@ -26,8 +26,8 @@ CLAIMED = {
    note="Assumed: contracts of math/big, strings, regexp, fmt, bytes (contracts/extern.spec); closed world for datalog.Term/Op; regex and substring semantics uninterpreted. Set intersection and union are proved sound and complete (every common element / every element of either operand occurs in the result). Not decided: Evaluate's full postfix semantics as one statement (well-formedness, error cases, stack discipline and one-element expressions are proved; the value of a longer sequence is the composition of the proved operator rows, which is not stated as a single obligation).",
    technique=T, ref="4/C06"),
  "C07": dict(
-   text="Proof (partial): both converter directions (token <-> wire, 19 functions) are under contract row by row (term kinds and tags, operator codes, totality on well-formed content, fresh results, no writes to existing memory); the builder-level value layer (types.go: convert and fromDatalog for terms, predicates, expressions, rules, checks) likewise (each operator and term kind maps to its counterpart, strings resolve to the inserted symbol); symbol-table Insert/Str/Var/Clone/Extend/IsDisjoint/SplitOff have full functional contracts (default table below 1024, offsets, prefix preservation); Unmarshal is proved to produce a well-formed token or an error; the block builder is proved to emit only the new symbols and the facts, rules and checks it was given, with version 3.",
-   note="Assumed: protobuf encode/decode. Not decided: the end-to-end round trip as one lemma (decode(encode(x)) == x composes the row contracts of both directions but is not stated as a single obligation), dates (time.Time is opaque), and dangling symbol indices (printed as a placeholder, not rejected).",
+   text="Proof (partial): both converter directions (token <-> wire, 19 functions) are under contract row by row (term kinds and tags, operator codes, totality on well-formed content, fresh results, no writes to existing memory); the builder-level value layer (types.go: convert and fromDatalog for terms, predicates, expressions, rules, checks) likewise (each operator and term kind maps to its counterpart, strings resolve to the inserted symbol); symbol-table Insert/Str/Var/Clone/Extend/IsDisjoint/SplitOff have full functional contracts (default table below 1024, offsets, prefix preservation); Unmarshal is proved to produce a well-formed token or an error; the block builder is proved to emit only the new symbols and the facts, rules and checks it was given, with version 3. Structure is under contract too (wire relations scalarEnc/termEnc/predEnc/opEnc/exprEnc/ruleEnc/checkEnc/blockEnc): every token-to-wire converter is proved to write exactly one wire element per element of its input, in order, carrying the name, the term kind and payload, the operator code, head/body/expressions, and the block header (symbols, context, version); the wire-to-token converters for terms, predicates and facts are proved against the converse relations (scalarDec/termDec/predDec).",
+   note="Assumed: protobuf encode/decode. Not decided: the end-to-end round trip as one lemma (decode(encode(x)) == x composes the wire relations of both directions, which are proved per converter, but is not stated as a single obligation); the structural relations of the wire-to-token direction above facts (expressions, rules, checks, blocks: only well-formedness and operator rows are proved there), dates (time.Time is opaque), and dangling symbol indices (printed as a placeholder, not rejected).",
    technique=T, ref="4/C07"),
  "C08": dict(
    text="Proof (partial): Append and Seal are proved to write nothing that existed before the call (strict frame: every store, map update, in-place append and callee effect is an obligation against 'modifies nothing'), SymbolTable.Clone is proved to own a fresh backing array, and the new token's envelope is proved to carry the parent's signed blocks unchanged.",
@@ -42,7 +42,7 @@ CLAIMED = {
    note="Not covered: experiments package, the MustParser wrappers (they panic by design), FactSet.String/Set.String of package biscuit. Out-of-memory and stack depth are not panics a contract can see. Dependencies are trusted to satisfy their assumed contracts.",
    technique=T, ref="4/C10"),
  "C11": dict(
-   text="Proof (producer/consumer rule): the goroutine bodies combine$1 and World.Run$1 are under contract with channel clauses (every sent value satisfies the channel invariant, nothing is sent after a final value, at most one verdict, channel closed on return); Rule.Apply and World.Run are proved against them, with a stranding obligation at every return (the producer is known to have finished, or the buffer covers what it may still send). World.Run's nil verdict is proved to be sent only when an iteration added nothing and the fact count is below the limit; limit plumbing: WithWorldOptions/NewVerifier/AuthorizerFor/Authorizer are proved to hand the caller's options to every world.",
+   text="Proof (producer/consumer rule): the goroutine bodies combine$1 and World.Run$1 are under contract with channel clauses (every sent value satisfies the channel invariant, nothing is sent after a final value, at most one verdict, channel closed on return); Rule.Apply and World.Run are proved against them, with a stranding obligation at every return (the producer is known to have finished, or the buffer covers what it may still send). World.Run's nil verdict is proved to be sent only when an iteration added nothing and the fact count is below the limit; limit plumbing: WithWorldOptions/NewVerifier/AuthorizerFor/Authorizer are proved to hand the caller's options to every world, World.Clone keeps them, and every authorizer method (Add*, AddBlock, AddAuthorizer, Reset, Authorize, Query, SerializePolicies, LoadPolicies) is proved to leave the configured limits of the working and the base world as they were (limits_kept).",
    note="Interleavings are not modelled: a goroutine body is verified as a sequential function and the consumer sees its effects only at receives (sound for the clauses used: they talk about sent values and monotone state). Wall-clock behaviour of the deadline is context.WithTimeout's assumed contract. Authorize and Query are proved to return an error when the run fails (a nil result implies the fact count is below the limit); that the error keeps its identity (errors.Is with the exported sentinel) on its way through Authorize is not expressible as a postcondition and is cross-checked on the real code by the thorough tier only.",
    technique=T, ref="4/C11"),
  "C13": dict(
